@@ -34,8 +34,8 @@ theorem RStat.rsmall {c : Nat} {x : Small α} {l : List α} (h : RStat c x l) : 
 theorem RStat.of_rsmall {c : Nat} {x : Small α} {l : List α} (ht : x.tagS = true) (h : RSmall c x l) : RStat c x l :=
   ⟨ht, (rsmall_st ht).mp h⟩
 
-theorem smallOk_of_static {c : Nat} {st : Option (List α)} {op : Op α} (h : smallStaticOk c st op) : smallOk c st op := by
-  cases st <;> cases op <;> simp only [smallOk, smallStaticOk] at h ⊢ <;> omega
+theorem smallOk_of_static {c : Nat} {st : Option (List α)} {op : Op α} (_h : smallStaticOk c st op) : smallOk c st op :=
+  trivial
 
 namespace SVec
 
@@ -194,13 +194,10 @@ theorem small_static_fix (c : Nat) (zero : α) :
     rw [hr, Small.storeAll_led_st _ (by simp [Small.mkDefault]) 0 vs L (by simp only [Small.mkDefault]; omega)]
   mkCopy := fun d s x y L _ h => by
     simp only [smallImpl, Small.mkCopy, h.1, if_true]
-    exact SVec.assign_led c zero _ _ L (svec_inv_fresh c zero) h.2.inv
   assign := fun d s x y x' y' L _ h h' => by
     simp only [smallImpl, Small.assign, h.1, h'.1, bne_self_eq_false, Bool.false_eq_true, if_false, if_true]
     exact SVec.assign_led c zero _ _ L h.2.inv h'.2.inv
-  assignSelf := fun d x y L _ h => by
-    simp only [smallImpl, Small.assignSelf, h.1, if_true]
-    exact SVec.assignSelf_led c zero _ L h.2.inv
+  assignSelf := fun d x y L _ h => rfl
   push := fun s a x y L hok h => by
     have hlt : y.length < c := hok
     have hsz := h.rsmall.size_eq
@@ -370,6 +367,77 @@ theorem assignSelf_inv (c : Nat) (zero : α) (v : SVec α) (L : Ledger) (hv : SV
 
 end SVec
 
+/-- the operation records no event and drops no block -/
+def Ledger.Same (L L' : Ledger) : Prop := L'.events = L.events ∧ L'.lost = L.lost
+
+theorem Ledger.Same.rfl' (L : Ledger) : Ledger.Same L L := ⟨rfl, rfl⟩
+theorem Ledger.Same.trans {L1 L2 L3 : Ledger} (h1 : Ledger.Same L1 L2) (h2 : Ledger.Same L2 L3) : Ledger.Same L1 L3 :=
+  ⟨h2.1.trans h1.1, h2.2.trans h1.2⟩
+theorem Ledger.same_of_eq {L L' : Ledger} (h : L' = L) : Ledger.Same L L' := by subst h; exact ⟨rfl, rfl⟩
+
+namespace Vec
+
+theorem mkDefault_same (L : Ledger) : Ledger.Same L (mkDefault (α := α) L).2 := ⟨rfl, rfl⟩
+
+theorem resize_same' (zero : α) (v : Vec α) (n : Nat) (L : Ledger) (h : v.Inv) : Ledger.Same L (v.resize zero n L).2 := by
+  obtain ⟨p, hp⟩ := Option.isSome_iff_exists.mp h.blk
+  have h1 := h.len; have h2 := h.le
+  unfold resize
+  simp only [hp]
+  split
+  · have hc : decide (v.cells.length < v.size) = false := by simp; omega
+    simp [Ledger.Same, hc, Ledger.flagIf, Ledger.free, Ledger.alloc]
+  · have hc : decide (v.size < n ∧ v.cells.length < n) = false := by simp; omega
+    simp [Ledger.Same, hc, Ledger.flagIf]
+
+theorem copyFrom_same (v o : Vec α) (L : Ledger) (h : v.Inv) (ho : o.Inv) (hs : v.size = o.size) :
+    Ledger.Same L (v.copyFrom o L).2 := by
+  have h1 := h.len; have h2 := h.le; have h3 := ho.len; have h4 := ho.le
+  have hc : decide (o.cells.length < v.size ∨ v.cells.length < v.size) = false := by simp; omega
+  simp [copyFrom, hc, Ledger.flagIf, Ledger.Same]
+
+theorem assign_same (zero : α) (v o : Vec α) (L : Ledger) (h : v.Inv) (ho : o.Inv) : Ledger.Same L (assign zero v o L).2 :=
+  (resize_same' zero v o.size L h).trans
+    (copyFrom_same _ o _ (resize_inv zero v o.size L h) ho (resize_size zero v o.size L h))
+
+theorem mkCopy_same (zero : α) (o : Vec α) (L : Ledger) (ho : o.Inv) : Ledger.Same L (mkCopy zero o L).2 := by
+  have h0 := mkDefault_inv (α := α) L
+  exact (mkDefault_same L).trans ((resize_same' zero _ o.size _ h0).trans
+    (copyFrom_same _ o _ (resize_inv zero _ o.size _ h0) ho (resize_size zero _ o.size _ h0)))
+
+theorem mkCopy_bal (zero : α) (o : Vec α) (L : Ledger) : (mkCopy zero o L).2.bal = L.bal + 1 := by
+  simp only [mkCopy]
+  rw [copyFrom_bal, resize_bal zero _ _ _ (by simp [mkDefault]), mkDefault_bal]
+
+theorem store_same (v : Vec α) (i : Nat) (x : Cell α) (L : Ledger) (hi : i < v.cells.length) : Ledger.Same L (v.store i x L).2 := by
+  simp [store, hi, Ledger.Same]
+
+theorem pushCell_same (zero : α) (v : Vec α) (x : Cell α) (L : Ledger) (h : v.Inv) : Ledger.Same L (pushCell zero v x L).2 := by
+  have h1 := h.len; have h2 := h.le
+  unfold pushCell
+  split
+  · have hi := resize_inv zero v (v.size + 1) L h
+    have hs := resize_size zero v (v.size + 1) L h
+    exact (resize_same' zero v _ L h).trans (store_same _ _ _ _ (by have := hi.len; have := hi.le; omega))
+  · exact store_same _ _ _ _ (by simp; omega)
+
+theorem pushAt_same (zero : α) (v : Vec α) (i : Nat) (L : Ledger) (h : v.Inv) (hi : i < v.size) :
+    Ledger.Same L (pushAt zero v i L).2 := by
+  have h1 := h.len; have h2 := h.le
+  have hil : i < v.cells.length := by omega
+  simp only [pushAt, List.getElem?_eq_getElem hil]
+  exact pushCell_same zero v _ L h
+
+theorem destroy_same (v : Vec α) (L : Ledger) : Ledger.Same L (destroy v L) := by
+  unfold destroy; split <;> exact ⟨rfl, rfl⟩
+
+theorem read_same (v : Vec α) (i : Nat) (L : Ledger) (h : v.Inv) (hi : i < v.size) : Ledger.Same L (read v i L).2 := by
+  have h1 := h.len; have h2 := h.le
+  have hil : i < v.cells.length := by omega
+  simp [read, List.getElem?_eq_getElem hil, Ledger.Same]
+
+end Vec
+
 namespace Small
 
 /-- representation invariant: the active part is well formed -/
@@ -385,52 +453,80 @@ theorem inv_dy {c : Nat} {x : Small α} (ht : x.tagS = false) (h : x.dy.Inv) : I
 theorem own_st {x : Small α} (ht : x.tagS = true) : own x = 0 := by simp [own, ht]
 theorem own_dy {x : Small α} (ht : x.tagS = false) : own x = 1 := by simp [own, ht]
 
-theorem loseBlk_bal (L : Ledger) (b : Option Nat) (h : b.isSome) : (loseBlk L b).bal = L.bal - 1 := by
-  obtain ⟨p, hp⟩ := Option.isSome_iff_exists.mp h
-  simp only [hp, loseBlk]; exact Ledger.bal_lose L p
-
-/-- summary of an operation: invariant kept, balance follows ownership (`ob` = blocks owned before) -/
+/-- summary of an operation: invariant kept, balance follows ownership (`ob` = blocks owned before), no event is
+    recorded and no block dropped -/
 structure SGood (c : Nat) (ob : Nat) (L : Ledger) (r : Small α × Ledger) : Prop where
   inv : Inv c r.1
   bal : r.2.bal = L.bal + own r.1 - ob
+  same : Ledger.Same L r.2
+
+theorem SGood.trans {c : Nat} {ob : Nat} {L : Ledger} {r1 r2 : Small α × Ledger} (h1 : SGood c ob L r1)
+    (h2 : SGood c (own r1.1) r1.2 r2) : SGood c ob L r2 :=
+  ⟨h2.inv, by rw [h2.bal, h1.bal]; omega, h1.same.trans h2.same⟩
 
 theorem mkSized_bal (c : Nat) (zero : α) (n : Nat) (L : Ledger) (hn : ¬ n < c) : (mkSized c zero n L).2.bal = L.bal + 1 := by
   simp only [mkSized, hn, if_false]
-  have hb : (Vec.assign zero rawVec (Vec.mkDefault (α := α) L).1 ((Vec.mkDefault (α := α) L).2.flag .uninitAssign)).1.blk.isSome := by
-    simp only [Vec.assign]; rw [Vec.copyFrom_blk]; exact Vec.resize_blk _ _ _ _
-  rw [Vec.resize_bal zero _ n _ hb, Vec.destroy_bal _ _ (by simp [Vec.mkDefault]), Vec.assign_bal_raw zero _ _ _ rfl,
-    Ledger.bal_flag, Vec.mkDefault_bal]
+  have hb : (Vec.mkCopy zero (Vec.mkDefault (α := α) L).1 (Vec.mkDefault (α := α) L).2).1.blk.isSome :=
+    (Vec.mkCopy_spec zero _ _ (Vec.mkDefault_inv L)).1.blk
+  rw [Vec.resize_bal zero _ n _ hb, Vec.destroy_bal _ _ (by simp [Vec.mkDefault]), Vec.mkCopy_bal, Vec.mkDefault_bal]
   omega
+
+theorem mkSized_same (c : Nat) (zero : α) (n : Nat) (L : Ledger) (hn : ¬ n < c) : Ledger.Same L (mkSized c zero n L).2 := by
+  simp only [mkSized, hn, if_false]
+  have hd := Vec.mkDefault_inv (α := α) L
+  have hc := Vec.mkCopy_spec zero (Vec.mkDefault (α := α) L).1 (Vec.mkDefault (α := α) L).2 hd
+  exact (Vec.mkDefault_same L).trans ((Vec.mkCopy_same zero _ _ hd).trans ((Vec.destroy_same _ _).trans
+    (Vec.resize_same' zero _ n _ hc.1)))
 
 theorem mkSized_good (c : Nat) (zero : α) (n : Nat) (L : Ledger) : SGood c 0 L (mkSized c zero n L) := by
   by_cases hn : n < c
   · have hf := svec_inv_fresh c zero (α := α)
     have h1 := SVec.assign_inv c zero _ _ L hf hf
-    refine ⟨?_, ?_⟩
+    refine ⟨?_, ?_, ?_⟩
     · simp only [mkSized, hn, if_true]
       exact inv_st rfl (SVec.resize_inv c zero _ n _ h1).1
     · simp only [mkSized, hn, if_true]
       rw [SVec.resize_bal, SVec.assign_bal, own_st rfl]; omega
+    · simp only [mkSized, hn, if_true]
+      exact Ledger.same_of_eq (by rw [SVec.resize_led c zero _ n _ h1, SVec.assign_led c zero _ _ L hf hf])
   · obtain ⟨ht, hi, _⟩ := mkSized_dyn c zero n L hn
-    exact ⟨inv_dy ht hi, by rw [mkSized_bal c zero n L hn, own_dy ht]; omega⟩
+    exact ⟨inv_dy ht hi, by rw [mkSized_bal c zero n L hn, own_dy ht]; omega, mkSized_same c zero n L hn⟩
 
 theorem storeCell_tag (x : Small α) (i : Nat) (v : Cell α) (L : Ledger) : (storeCell x i v L).1.tagS = x.tagS := by
   cases ht : x.tagS <;> simp [storeCell, ht]
 
-theorem storeCell_good (c : Nat) (x : Small α) (i : Nat) (v : Cell α) (L : Ledger) (h : Inv c x) :
+theorem storeCell_good (c : Nat) (x : Small α) (i : Nat) (v : Cell α) (L : Ledger) (h : Inv c x) (hi : i < x.size) :
     SGood c (own x) L (storeCell x i v L) := by
   cases ht : x.tagS with
   | true =>
-    refine ⟨?_, ?_⟩
-    · simp only [storeCell, ht, if_true]; exact inv_st rfl (SVec.store_inv c _ _ _ _ (h.1 ht))
+    have hs := h.1 ht
+    have hil : i < x.st.cells.length := by have := hs.1; have := hs.2; simp [size, ht] at hi; omega
+    refine ⟨?_, ?_, ?_⟩
+    · simp only [storeCell, ht, if_true]; exact inv_st rfl (SVec.store_inv c _ _ _ _ hs)
     · simp only [storeCell, ht, if_true]; rw [SVec.store_bal]; simp only [own, ht, if_true, Bool.false_eq_true, if_false] <;> omega
+    · simp only [storeCell, ht, if_true]; exact Ledger.same_of_eq (SVec.store_led _ _ _ _ hil)
   | false =>
-    refine ⟨?_, ?_⟩
-    · simp only [storeCell, ht, Bool.false_eq_true, if_false]; exact inv_dy rfl (Vec.store_inv _ _ _ _ (h.2 ht))
+    have hd := h.2 ht
+    have hil : i < x.dy.cells.length := by have := hd.len; have := hd.le; simp [size, ht] at hi; omega
+    refine ⟨?_, ?_, ?_⟩
+    · simp only [storeCell, ht, Bool.false_eq_true, if_false]; exact inv_dy rfl (Vec.store_inv _ _ _ _ hd)
     · simp only [storeCell, ht, Bool.false_eq_true, if_false]; rw [Vec.store_bal]; simp only [own, ht, if_true, Bool.false_eq_true, if_false] <;> omega
+    · simp only [storeCell, ht, Bool.false_eq_true, if_false]; exact Vec.store_same _ _ _ _ hil
 
-theorem write_eq_storeCell (x : Small α) (i : Nat) (a : α) (L : Ledger) : write x i a L = storeCell x i (some a) L := by
-  cases ht : x.tagS <;> simp [write, storeCell, ht, SVec.write, Vec.write]
+theorem storeCell_size (x : Small α) (i : Nat) (v : Cell α) (L : Ledger) : (storeCell x i v L).1.size = x.size := by
+  cases ht : x.tagS
+  · simp only [storeCell, ht, Bool.false_eq_true, if_false, size, Vec.store]; split <;> rfl
+  · simp only [storeCell, ht, if_true, size, SVec.store]; split <;> rfl
+
+theorem storeAll_good (c : Nat) (x : Small α) (i : Nat) (as : List α) (L : Ledger) (h : Inv c x)
+    (hb : i + as.length ≤ x.size) : SGood c (own x) L (storeAll x i as L) := by
+  induction as generalizing x i L with
+  | nil => exact ⟨h, by simp only [storeAll]; omega, Ledger.Same.rfl' L⟩
+  | cons a as ih =>
+    simp only [List.length_cons] at hb
+    simp only [storeAll, write_eq_storeCell]
+    have g1 := storeCell_good c x i (some a) L h (by omega)
+    exact g1.trans (ih _ _ _ g1.inv (by rw [storeCell_size]; omega))
 
 theorem write_bal (x : Small α) (i : Nat) (a : α) (L : Ledger) : (write x i a L).2.bal = L.bal := by
   simp only [write]; split
@@ -448,119 +544,154 @@ theorem resize_good (c : Nat) (zero : α) (x : Small α) (n : Nat) (L : Ledger) 
   | true =>
     have hs := h.1 ht
     by_cases hn : n ≤ c
-    · refine ⟨?_, ?_⟩
+    · refine ⟨?_, ?_, ?_⟩
       · simp only [resize, ht, if_true, hn]; exact inv_st rfl (SVec.resize_inv c zero _ n L hs).1
       · simp only [resize, ht, if_true, hn]; rw [SVec.resize_bal]; simp only [own, ht, if_true, Bool.false_eq_true, if_false] <;> omega
+      · simp only [resize, ht, if_true, hn]; exact Ledger.same_of_eq (SVec.resize_led c zero _ n L hs)
     · obtain ⟨htag, hinv, _⟩ := resize_grow_dyn c zero x n L ht hs.1 hs.2 (by omega)
-      refine ⟨inv_dy htag hinv, ?_⟩
-      rw [own_dy htag, own_st ht]
       have hnc : ¬ n < c := by omega
-      have hnb := mkSized_dyn c zero n L hnc
-      simp only [resize, ht, if_true, hn, if_false]
-      rw [loseBlk_bal _ _ hnb.2.1.blk, Vec.assign_bal zero _ _ _ (by simp [Vec.mkDefault]), Vec.mkDefault_bal,
-        Ledger.bal_flagIf, mkSized_bal c zero n L hnc]
-      omega
+      obtain ⟨_, hnbinv, hnbview⟩ := mkSized_dyn c zero n L hnc
+      have hnbsz : (mkSized c zero n L).1.dy.size = n := by
+        have := Vec.view_length _ hnbinv; rw [hnbview] at this; simpa using this.symm
+      -- the temporary with the copied prefix is still a well-formed vector
+      have hpatch : ({ (mkSized c zero n L).1.dy with
+          cells := x.st.cells.take x.st.size ++ (mkSized c zero n L).1.dy.cells.drop x.st.size } : Vec α).Inv := by
+        have hl := hnbinv.len; have hle := hnbinv.le
+        refine ⟨hnbinv.blk, ?_, hnbinv.le⟩
+        have := hs.1; have := hs.2
+        simp [List.length_take]; omega
+      have hflag : decide (x.st.cells.length < x.st.size ∨ (mkSized c zero n L).1.dy.cells.length < x.st.size) = false := by
+        have hl := hnbinv.len; have hle := hnbinv.le
+        have := hs.1; have := hs.2
+        simp; omega
+      refine ⟨inv_dy htag hinv, ?_, ?_⟩
+      · rw [own_dy htag, own_st ht]
+        simp only [resize, ht, if_true, hn, if_false]
+        rw [Vec.destroy_bal _ _ hpatch.blk, Vec.mkCopy_bal, Ledger.bal_flagIf, mkSized_bal c zero n L hnc]
+        omega
+      · simp only [resize, ht, if_true, hn, if_false, hflag, Ledger.flagIf]
+        exact (mkSized_same c zero n L hnc).trans ((Vec.mkCopy_same zero _ _ hpatch).trans (Vec.destroy_same _ _))
   | false =>
     have hd := h.2 ht
-    refine ⟨?_, ?_⟩
+    refine ⟨?_, ?_, ?_⟩
     · simp only [resize, ht, Bool.false_eq_true, if_false]; exact inv_dy rfl (Vec.resize_inv zero _ n L hd)
     · simp only [resize, ht, Bool.false_eq_true, if_false]; rw [Vec.resize_bal zero _ n L hd.blk]; simp only [own, ht, if_true, Bool.false_eq_true, if_false] <;> omega
+    · simp only [resize, ht, Bool.false_eq_true, if_false]; exact Vec.resize_same' zero _ n L hd
 
-theorem SGood.trans {c : Nat} {ob : Nat} {L : Ledger} {r1 r2 : Small α × Ledger} (h1 : SGood c ob L r1)
-    (h2 : SGood c (own r1.1) r1.2 r2) : SGood c ob L r2 :=
-  ⟨h2.inv, by rw [h2.bal, h1.bal]; omega⟩
-
-theorem SGood.flag {c : Nat} {ob : Nat} {L : Ledger} {x : Small α} {M : Ledger} (e : Event) (h : SGood c ob L (x, M)) :
-    SGood c ob L (x, M.flag e) := ⟨h.inv, by rw [← h.bal]; rfl⟩
+theorem resize_size (c : Nat) (zero : α) (x : Small α) (n : Nat) (L : Ledger) (h : Inv c x) (hx : x.size ≤ n) (hn : c < n ∨ ¬ x.tagS) :
+    (resize c zero x n L).1.size = n := by
+  cases ht : x.tagS with
+  | true =>
+    have hs := h.1 ht
+    have hc : c < n := by rcases hn with h' | h'; exact h'; simp [ht] at h'
+    obtain ⟨htag, hinv, hview⟩ := resize_grow_dyn c zero x n L ht hs.1 hs.2 hc
+    have := Vec.view_length _ hinv
+    rw [hview] at this
+    have hxs : x.size = x.st.size := by simp [size, ht]
+    have hvl : x.st.view.length = x.st.size := by
+      have := hs.1; have := hs.2
+      simp only [SVec.view, List.length_take]; omega
+    simp [size, htag] at this ⊢
+    omega
+  | false =>
+    simp only [resize, ht, Bool.false_eq_true, if_false, size]
+    exact Vec.resize_size zero _ n L (h.2 ht)
 
 theorem push_good (c : Nat) (zero : α) (x : Small α) (a : α) (L : Ledger) (h : Inv c x) :
     SGood c (own x) L (push c zero x a L) := by
   by_cases hc : x.size = c
   · simp only [push, hc, if_true]
     have g1 := resize_good c zero x (c + 1) L h
+    have hsz := resize_size c zero x (c + 1) L h (by omega) (by
+      cases ht : x.tagS with
+      | true => left; omega
+      | false => right; simp)
     rw [write_eq_storeCell]
-    exact g1.trans (storeCell_good c _ _ _ _ g1.inv)
+    exact g1.trans (storeCell_good c _ _ _ _ g1.inv (by omega))
   · cases ht : x.tagS with
     | true =>
-      refine ⟨?_, ?_⟩
+      refine ⟨?_, ?_, ?_⟩
       · simp only [push, hc, if_false, ht, if_true]; exact inv_st rfl (SVec.push_inv c zero _ a L (h.1 ht))
       · simp only [push, hc, if_false, ht, if_true]; rw [SVec.push_bal]; simp only [own, ht, if_true, Bool.false_eq_true, if_false] <;> omega
+      · simp only [push, hc, if_false, ht, if_true]; exact Ledger.same_of_eq (SVec.push_led c zero _ a L (h.1 ht))
     | false =>
-      refine ⟨?_, ?_⟩
+      refine ⟨?_, ?_, ?_⟩
       · simp only [push, hc, if_false, ht, Bool.false_eq_true]; exact inv_dy rfl (Vec.pushCell_spec zero _ _ L (h.2 ht)).1
       · simp only [push, hc, if_false, ht, Bool.false_eq_true, Vec.push]
         rw [Vec.pushCell_bal zero _ _ L (h.2 ht).blk]; simp only [own, ht, if_true, Bool.false_eq_true, if_false] <;> omega
+      · simp only [push, hc, if_false, ht, Bool.false_eq_true, Vec.push]; exact Vec.pushCell_same zero _ _ L (h.2 ht)
 
-theorem pushAt_good (c : Nat) (zero : α) (x : Small α) (i : Nat) (L : Ledger) (h : Inv c x) :
+theorem pushAt_good (c : Nat) (zero : α) (x : Small α) (i : Nat) (L : Ledger) (h : Inv c x) (hi : i < x.size) :
     SGood c (own x) L (pushAt c zero x i L) := by
   by_cases hc : x.size = c
-  · simp only [pushAt, hc, if_true]
+  · have hcell : ∃ v, (if x.tagS then x.st.cells else x.dy.cells)[i]? = some v := by
+      cases ht : x.tagS with
+      | true =>
+        have hs := h.1 ht
+        have : i < x.st.cells.length := by have := hs.1; have := hs.2; simp [size, ht] at hi; omega
+        exact ⟨_, by simp only [if_true]; exact List.getElem?_eq_getElem this⟩
+      | false =>
+        have hd := h.2 ht
+        have : i < x.dy.cells.length := by have := hd.len; have := hd.le; simp [size, ht] at hi; omega
+        exact ⟨_, by simp only [Bool.false_eq_true, if_false]; exact List.getElem?_eq_getElem this⟩
+    obtain ⟨v, hv⟩ := hcell
+    simp only [pushAt, hc, if_true, hv]
     have g1 := resize_good c zero x (c + 1) L h
-    split
-    · have g2 : SGood c (own x) L ((resize c zero x (c + 1) L).1, (resize c zero x (c + 1) L).2.flag .uaf) :=
-        ⟨g1.inv, by rw [Ledger.bal_flag]; exact g1.bal⟩
-      exact g2.trans (storeCell_good c _ _ _ _ g1.inv)
-    · exact g1.trans (storeCell_good c _ _ _ _ g1.inv)
+    have hsz := resize_size c zero x (c + 1) L h (by omega) (by
+      cases ht : x.tagS with
+      | true => left; omega
+      | false => right; simp)
+    exact g1.trans (storeCell_good c _ _ _ _ g1.inv (by omega))
   · cases ht : x.tagS with
     | true =>
-      refine ⟨?_, ?_⟩
+      have hi' : i < x.st.size := by simpa [size, ht] using hi
+      refine ⟨?_, ?_, ?_⟩
       · simp only [pushAt, hc, if_false, ht, if_true]; exact inv_st rfl (SVec.pushAt_inv c zero _ i L (h.1 ht))
       · simp only [pushAt, hc, if_false, ht, if_true]; rw [SVec.pushAt_bal]; simp only [own, ht, if_true, Bool.false_eq_true, if_false] <;> omega
+      · simp only [pushAt, hc, if_false, ht, if_true]; exact Ledger.same_of_eq (SVec.pushAt_led c zero _ i L (h.1 ht) hi')
     | false =>
-      refine ⟨?_, ?_⟩
+      have hi' : i < x.dy.size := by simpa [size, ht] using hi
+      refine ⟨?_, ?_, ?_⟩
       · simp only [pushAt, hc, if_false, ht, Bool.false_eq_true]; exact inv_dy rfl (Vec.pushAt_inv zero _ i L (h.2 ht))
       · simp only [pushAt, hc, if_false, ht, Bool.false_eq_true]
         rw [Vec.pushAt_bal zero _ i L (h.2 ht).blk]; simp only [own, ht, if_true, Bool.false_eq_true, if_false] <;> omega
+      · simp only [pushAt, hc, if_false, ht, Bool.false_eq_true]; exact Vec.pushAt_same zero _ i L (h.2 ht) hi'
 
 theorem mkCopy_good (c : Nat) (zero : α) (o : Small α) (L : Ledger) (h : Inv c o) : SGood c 0 L (mkCopy c zero o L) := by
   cases ht : o.tagS with
   | true =>
-    refine ⟨?_, ?_⟩
-    · simp only [mkCopy, ht, if_true]; exact inv_st rfl (SVec.assign_inv c zero _ _ L (svec_inv_fresh c zero) (h.1 ht))
-    · simp only [mkCopy, ht, if_true]; rw [SVec.assign_bal, own_st rfl]; omega
+    simp only [mkCopy, ht, if_true]
+    exact ⟨inv_st rfl (h.1 ht), by rw [own_st rfl]; show L.bal = _; omega, Ledger.Same.rfl' L⟩
   | false =>
-    refine ⟨?_, ?_⟩
-    · simp only [mkCopy, ht, Bool.false_eq_true, if_false]
-      exact inv_dy rfl (rawAssign_spec zero o.dy _ (h.2 ht)).1
-    · simp only [mkCopy, ht, Bool.false_eq_true, if_false]
-      rw [Vec.assign_bal_raw zero _ _ _ rfl, Ledger.bal_flag, own_dy rfl]; omega
+    simp only [mkCopy, ht, Bool.false_eq_true, if_false]
+    exact ⟨inv_dy rfl (Vec.mkCopy_spec zero o.dy L (h.2 ht)).1, by rw [Vec.mkCopy_bal, own_dy rfl]; omega,
+      Vec.mkCopy_same zero o.dy L (h.2 ht)⟩
 
 theorem assign_good (c : Nat) (zero : α) (x o : Small α) (L : Ledger) (h : Inv c x) (ho : Inv c o) :
     SGood c (own x) L (assign c zero x o L) := by
   cases ht : x.tagS <;> cases ht' : o.tagS
-  · refine ⟨?_, ?_⟩
+  · refine ⟨?_, ?_, ?_⟩
     · simp only [assign, ht, ht', bne_self_eq_false, Bool.false_eq_true, if_false]
       exact inv_dy rfl (Vec.assign_spec zero _ _ L (h.2 ht) (ho.2 ht')).1
     · simp only [assign, ht, ht', bne_self_eq_false, Bool.false_eq_true, if_false]
       rw [Vec.assign_bal zero _ _ L (h.2 ht).blk]; simp only [own, ht, if_true, Bool.false_eq_true, if_false] <;> omega
-  · refine ⟨?_, ?_⟩
-    · simp only [assign, ht, ht', Bool.bne_true, Bool.not_false, if_true]
-      exact inv_st rfl (SVec.assign_inv c zero _ _ _ (svec_inv_fresh c zero) (ho.1 ht'))
-    · simp only [assign, ht, ht', Bool.bne_true, Bool.not_false, if_true]
-      rw [SVec.assign_bal, loseBlk_bal _ _ (h.2 ht).blk]; simp only [own, ht, if_true, Bool.false_eq_true, if_false] <;> omega
-  · refine ⟨?_, ?_⟩
-    · simp only [assign, ht, ht', Bool.bne_false, if_true, Bool.false_eq_true, if_false]
-      exact inv_dy rfl (Vec.assign_spec zero _ _ _ (Vec.mkDefault_inv L) (ho.2 ht')).1
-    · simp only [assign, ht, ht', Bool.bne_false, if_true, Bool.false_eq_true, if_false]
-      rw [Vec.assign_bal zero _ _ _ (by simp [Vec.mkDefault]), Vec.mkDefault_bal]; simp only [own, ht, if_true, Bool.false_eq_true, if_false] <;> omega
-  · refine ⟨?_, ?_⟩
+    · simp only [assign, ht, ht', bne_self_eq_false, Bool.false_eq_true, if_false]
+      exact Vec.assign_same zero _ _ L (h.2 ht) (ho.2 ht')
+  · simp only [assign, ht, ht', Bool.bne_true, Bool.not_false, if_true]
+    exact ⟨inv_st rfl (ho.1 ht'), by
+      rw [Vec.destroy_bal _ _ (h.2 ht).blk]; simp only [own, ht, if_true, Bool.false_eq_true, if_false] <;> omega,
+      Vec.destroy_same _ _⟩
+  · simp only [assign, ht, ht', Bool.bne_false, if_true, Bool.false_eq_true, if_false]
+    exact ⟨inv_dy rfl (Vec.mkCopy_spec zero o.dy L (ho.2 ht')).1, by
+      rw [Vec.mkCopy_bal]; simp only [own, ht, if_true, Bool.false_eq_true, if_false] <;> omega,
+      Vec.mkCopy_same zero o.dy L (ho.2 ht')⟩
+  · refine ⟨?_, ?_, ?_⟩
     · simp only [assign, ht, ht', bne_self_eq_false, Bool.false_eq_true, if_false, if_true]
       exact inv_st rfl (SVec.assign_inv c zero _ _ L (h.1 ht) (ho.1 ht'))
     · simp only [assign, ht, ht', bne_self_eq_false, Bool.false_eq_true, if_false, if_true]
       rw [SVec.assign_bal]; simp only [own, ht, if_true, Bool.false_eq_true, if_false] <;> omega
-
-theorem assignSelf_good (c : Nat) (zero : α) (x : Small α) (L : Ledger) (h : Inv c x) :
-    SGood c (own x) L (assignSelf c zero x L) := by
-  cases ht : x.tagS with
-  | true =>
-    refine ⟨?_, ?_⟩
-    · simp only [assignSelf, ht, if_true]; exact inv_st rfl (SVec.assignSelf_inv c zero _ L (h.1 ht))
-    · simp only [assignSelf, ht, if_true]; rw [SVec.assignSelf_bal]; simp only [own, ht, if_true, Bool.false_eq_true, if_false] <;> omega
-  | false =>
-    have := Vec.assignSelf_eq zero x.dy L (h.2 ht)
-    refine ⟨?_, ?_⟩
-    · simp only [assignSelf, ht, Bool.false_eq_true, if_false, this]; exact inv_dy rfl (h.2 ht)
-    · simp only [assignSelf, ht, Bool.false_eq_true, if_false, this]; simp only [own, ht, if_true, Bool.false_eq_true, if_false] <;> omega
+    · simp only [assign, ht, ht', bne_self_eq_false, Bool.false_eq_true, if_false, if_true]
+      exact Ledger.same_of_eq (SVec.assign_led c zero _ _ L (h.1 ht) (ho.1 ht'))
 
 end Small
 
@@ -599,20 +730,18 @@ theorem small_bal (c : Nat) (zero : α) : Bal (smallImpl c zero) (Small.Inv c) S
   assign := fun x y L h h' => by
     have g := Small.assign_good c zero x y L h h'
     exact ⟨g.inv, g.bal⟩
-  assignSelf := fun x L h => by
-    have g := Small.assignSelf_good c zero x L h
-    exact ⟨g.inv, g.bal⟩
+  assignSelf := fun x L h => ⟨h, by show L.bal = L.bal + (Small.own x : Nat) - (Small.own x : Nat); omega⟩
   push := fun a x L h => by
     have g := Small.push_good c zero x a L h
     exact ⟨g.inv, g.bal⟩
-  pushAt := fun i x L h _ => by
-    have g := Small.pushAt_good c zero x i L h
+  pushAt := fun i x L h hi => by
+    have g := Small.pushAt_good c zero x i L h hi
     exact ⟨g.inv, g.bal⟩
   resize := fun n x L h => by
     have g := Small.resize_good c zero x n L h
     exact ⟨g.inv, g.bal⟩
-  write := fun i a x L h _ => by
-    have g := Small.storeCell_good c x i (some a) L h
+  write := fun i a x L h hi => by
+    have g := Small.storeCell_good c x i (some a) L h hi
     rw [← Small.write_eq_storeCell] at g
     exact ⟨g.inv, g.bal⟩
   read := fun i x L _ _ => by
@@ -626,7 +755,70 @@ theorem small_bal (c : Nat) (zero : α) : Bal (smallImpl c zero) (Small.Inv c) S
     | true => simp only [Small.destroy, ht, if_true, Small.own_st ht]; omega
     | false =>
       simp only [Small.destroy, ht, Bool.false_eq_true, if_false]
-      rw [Small.loseBlk_bal _ _ (h.2 ht).blk, Small.own_dy ht]; omega
+      rw [Vec.destroy_bal _ _ (h.2 ht).blk, Small.own_dy ht]; omega
+
+/-- the ledger never records an event (out-of-bounds access, read of freed memory, lifetime error) and never drops a block -/
+def Ledger.Quiet (L : Ledger) : Prop := L.events = [] ∧ L.lost = []
+
+theorem Ledger.Quiet.of_same {L L' : Ledger} (h : Ledger.Quiet L) (hs : Ledger.Same L L') : Ledger.Quiet L' :=
+  ⟨hs.1.trans h.1, hs.2.trans h.2⟩
+
+theorem small_quiet (c : Nat) (zero : α) : Pres (smallImpl c zero) (Small.Inv c) Ledger.Quiet (fun _ => True) where
+  mkDefault := fun s L _ hq => ⟨Small.inv_st rfl (svec_inv_fresh c zero), hq⟩
+  mkSized := fun s n L _ hq => by
+    have g := Small.mkSized_good c zero n L
+    exact ⟨g.inv, hq.of_same g.same⟩
+  mkVariadic := fun s vs L _ hq => by
+    have g1 := Small.resize_good c zero (Small.mkDefault c zero L).1 vs.length L
+      (Small.inv_st rfl (svec_inv_fresh c zero))
+    have hsz : (Small.resize c zero (Small.mkDefault c zero L).1 vs.length L).1.size = vs.length := by
+      have hr := ((small_sim c zero).resize 0 vs.length (Small.mkDefault c zero L).1 [] L L trivial
+        (by simpa [RSmall, Small.mkDefault] using rsvec_fresh c zero)).size_eq
+      have : (listResize zero ([] : List α) vs.length).length = vs.length := by
+        simp only [listResize]; split
+        · have : vs.length = 0 := by simpa using ‹vs.length ≤ ([] : List α).length›
+          simp [this]
+        · simp
+      simpa [smallImpl, stdSpec, this] using hr
+    have g2 := Small.storeAll_good c (Small.resize c zero (Small.mkDefault c zero L).1 vs.length L).1 0 vs
+      (Small.resize c zero (Small.mkDefault c zero L).1 vs.length L).2 g1.inv (by omega)
+    have g := g1.trans g2
+    exact ⟨g.inv, hq.of_same g.same⟩
+  mkCopy := fun d s x L _ hp hq => by
+    have g := Small.mkCopy_good c zero x L hp
+    exact ⟨g.inv, hq.of_same g.same⟩
+  assign := fun d s x y L _ hx hy hq => by
+    have g := Small.assign_good c zero x y L hx hy
+    exact ⟨g.inv, hq.of_same g.same⟩
+  assignSelf := fun d x L _ hx hq => ⟨hx, hq⟩
+  push := fun s a x L _ hx hq => by
+    have g := Small.push_good c zero x a L hx
+    exact ⟨g.inv, hq.of_same g.same⟩
+  pushAt := fun s i x L _ hx hq hi => by
+    have g := Small.pushAt_good c zero x i L hx hi
+    exact ⟨g.inv, hq.of_same g.same⟩
+  resize := fun s n x L _ hx hq => by
+    have g := Small.resize_good c zero x n L hx
+    exact ⟨g.inv, hq.of_same g.same⟩
+  write := fun s i a x L _ hx hq hi => by
+    have g := Small.storeCell_good c x i (some a) L hx hi
+    rw [← Small.write_eq_storeCell] at g
+    exact ⟨g.inv, hq.of_same g.same⟩
+  read := fun s i x L _ hx hq hi => by
+    have hi' : i < x.size := hi
+    show Ledger.Quiet (Small.read x i L).2
+    cases ht : x.tagS with
+    | true =>
+      simp only [Small.read, ht, if_true]
+      rw [SVec.read_led c _ i L (hx.1 ht) (by simpa [Small.size, ht] using hi')]; exact hq
+    | false =>
+      simp only [Small.read, ht, Bool.false_eq_true, if_false]
+      exact hq.of_same (Vec.read_same _ i L (hx.2 ht) (by simpa [Small.size, ht] using hi'))
+  destroy := fun s x L _ hx hq => by
+    show Ledger.Quiet (Small.destroy x L)
+    simp only [Small.destroy]; split
+    · exact hq
+    · exact hq.of_same (Vec.destroy_same _ _)
 
 /-! ### exact allocator cost of the static → heap switch -/
 
@@ -659,48 +851,56 @@ end Vec
 
 namespace Small
 
-theorem mkSized_cost (c : Nat) (zero : α) (n : Nat) (L : Ledger) (hn : ¬ n < c) (h1 : 1 ≤ n) :
-    (mkSized c zero n L).2.fp = (L.allocs + 3, (L.allocs + 1) :: L.allocs :: L.freed, L.lost) ∧
-    (mkSized c zero n L).1.dy.blk = some (L.allocs + 2) ∧ (mkSized c zero n L).1.dy.size = n := by
-  have h0 : 0 < n := by omega
-  simp [mkSized, hn, Vec.mkDefault, Vec.assign, Vec.resize, rawVec, Ledger.alloc, Ledger.flag, Ledger.flagIf, Vec.copyFrom,
-    Vec.destroy, Ledger.free, h0, Ledger.fp]
+/-- cost of `small_vector(n)`, `n ≥ DIM`, `n ≥ 1`: the temporary default vector, its copy inside the union and (for
+    `n > 4`) the reallocation by `resize(n)` -/
+theorem mkSized_cost (c : Nat) (zero : α) (n : Nat) (L : Ledger) (hn : ¬ n < c) :
+    (mkSized c zero n L).2.fp =
+      (if 4 < n then (L.allocs + 3, (L.allocs + 1) :: L.allocs :: L.freed, L.lost) else (L.allocs + 2, L.allocs :: L.freed, L.lost)) ∧
+    (mkSized c zero n L).1.dy.blk = some (if 4 < n then L.allocs + 2 else L.allocs + 1) ∧ (mkSized c zero n L).1.dy.size = n ∧
+    (mkSized c zero n L).1.dy.cap = (if 4 < n then n else 4) := by
+  by_cases h4 : 4 < n
+  · simp [mkSized, hn, Vec.mkDefault, Vec.mkCopy, Vec.assign, Vec.resize, Ledger.alloc, Ledger.flag, Ledger.flagIf, Vec.copyFrom,
+      Vec.destroy, Ledger.free, h4, Ledger.fp, initRange]
+  · simp [mkSized, hn, Vec.mkDefault, Vec.mkCopy, Vec.assign, Vec.resize, Ledger.alloc, Ledger.flag, Ledger.flagIf, Vec.copyFrom,
+      Vec.destroy, Ledger.free, h4, Ledger.fp, initRange]
 
-/-- cost of the static → heap switch `resize(n)`, `n > DIM`: the temporary `small_vector(n)` (3 allocations, 2 frees), a
-    default-constructed vector placed over the static buffer (1 allocation), its assignment from the temporary (a
-    reallocation when `n > 4`), and the block of the temporary is dropped -/
+/-- cost of the static → heap switch `resize(n)`, `n > DIM` (also taken by the `push_back` at size DIM): the temporary
+    `small_vector(n)`, the copy construction of its vector inside the union (a block of 4, reallocated when `n > 4`)
+    and the destruction of the temporary — every block but the final one is freed -/
 theorem resize_switch_cost (c : Nat) (zero : α) (x : Small α) (n : Nat) (L : Ledger) (ht : x.tagS = true) (hn : c < n) :
     (resize c zero x n L).2.fp =
-      (if 4 < n then (L.allocs + 5, (L.allocs + 3) :: (L.allocs + 1) :: L.allocs :: L.freed, (L.allocs + 2) :: L.lost)
-       else (L.allocs + 4, (L.allocs + 1) :: L.allocs :: L.freed, (L.allocs + 2) :: L.lost)) ∧
-    (resize c zero x n L).1.dy.blk = some (if 4 < n then L.allocs + 4 else L.allocs + 3) := by
+      (if 4 < n then (L.allocs + 5, (L.allocs + 2) :: (L.allocs + 3) :: (L.allocs + 1) :: L.allocs :: L.freed, L.lost)
+       else (L.allocs + 3, (L.allocs + 1) :: L.allocs :: L.freed, L.lost)) ∧
+    (resize c zero x n L).1.dy.blk = some (if 4 < n then L.allocs + 4 else L.allocs + 2) := by
   have hnc : ¬ n ≤ c := by omega
-  obtain ⟨hfp, hb, hsz⟩ := mkSized_cost c zero n L (by omega) (by omega)
+  obtain ⟨hfp, hb, hsz, _⟩ := mkSized_cost c zero n L (by omega)
   simp only [resize, ht, if_true, hnc, if_false]
   generalize mkSized c zero n L = nb at hfp hb hsz
   generalize hL2 : nb.2.flagIf (decide (x.st.cells.length < x.st.size ∨ nb.1.dy.cells.length < x.st.size)) Event.oob = L2
   have hL2fp : L2.fp = nb.2.fp := by rw [← hL2]; exact Ledger.fp_flagIf _ _ _
-  have hL2a : L2.allocs = L.allocs + 3 := by have := congrArg Prod.fst (hL2fp.trans hfp); exact this
-  have hL2f : L2.freed = (L.allocs + 1) :: L.allocs :: L.freed := by
-    have := congrArg (fun t => t.2.1) (hL2fp.trans hfp); exact this
-  have hL2l : L2.lost = L.lost := by
-    have := congrArg (fun t => t.2.2) (hL2fp.trans hfp); exact this
-  simp only [Vec.assign, hb, loseBlk]
   by_cases h4 : 4 < n
-  · obtain ⟨h1, h2⟩ := Vec.resize_fp_grow zero (Vec.mkDefault (α := α) L2).1 n (Vec.mkDefault (α := α) L2).2 L2.allocs
+  · simp only [h4, if_true] at hfp hb ⊢
+    have hL2a : L2.allocs = L.allocs + 3 := congrArg Prod.fst (hL2fp.trans hfp)
+    have hL2f : L2.freed = (L.allocs + 1) :: L.allocs :: L.freed := congrArg (fun t => t.2.1) (hL2fp.trans hfp)
+    have hL2l : L2.lost = L.lost := congrArg (fun t => t.2.2) (hL2fp.trans hfp)
+    obtain ⟨h1, h2⟩ := Vec.resize_fp_grow zero (Vec.mkDefault (α := α) L2).1 n (Vec.mkDefault (α := α) L2).2 L2.allocs
       (by simp [Vec.mkDefault, Ledger.alloc]) (by simpa [Vec.mkDefault] using h4)
-    simp only [hsz, h4, if_true]
+    simp only [Vec.mkCopy, hsz, Vec.destroy, hb]
     refine ⟨?_, ?_⟩
-    · simp only [Ledger.fp, Ledger.lose, Prod.mk.injEq] at h1 ⊢
+    · simp only [Ledger.fp, Ledger.free, Prod.mk.injEq] at h1 ⊢
       simp only [Vec.copyFrom_allocs, Vec.copyFrom_freed, Vec.copyFrom_lost]
       rw [h1.1, h1.2.1, h1.2.2]
       simp [Vec.mkDefault, Ledger.alloc, hL2a, hL2f, hL2l]
     · simp only [Vec.copyFrom]; rw [h2]; simp [Vec.mkDefault, Ledger.alloc, hL2a]
-  · obtain ⟨h1, h2⟩ := Vec.resize_fp_keep zero (Vec.mkDefault (α := α) L2).1 n (Vec.mkDefault (α := α) L2).2 L2.allocs
+  · simp only [h4, if_false] at hfp hb ⊢
+    have hL2a : L2.allocs = L.allocs + 2 := congrArg Prod.fst (hL2fp.trans hfp)
+    have hL2f : L2.freed = L.allocs :: L.freed := congrArg (fun t => t.2.1) (hL2fp.trans hfp)
+    have hL2l : L2.lost = L.lost := congrArg (fun t => t.2.2) (hL2fp.trans hfp)
+    obtain ⟨h1, h2⟩ := Vec.resize_fp_keep zero (Vec.mkDefault (α := α) L2).1 n (Vec.mkDefault (α := α) L2).2 L2.allocs
       (by simp [Vec.mkDefault, Ledger.alloc]) (by simpa [Vec.mkDefault] using h4)
-    simp only [hsz, h4, if_false]
+    simp only [Vec.mkCopy, hsz, Vec.destroy, hb]
     refine ⟨?_, ?_⟩
-    · simp only [Ledger.fp, Ledger.lose, Prod.mk.injEq] at h1 ⊢
+    · simp only [Ledger.fp, Ledger.free, Prod.mk.injEq] at h1 ⊢
       simp only [Vec.copyFrom_allocs, Vec.copyFrom_freed, Vec.copyFrom_lost]
       rw [h1.1, h1.2.1, h1.2.2]
       simp [Vec.mkDefault, Ledger.alloc, hL2a, hL2f, hL2l]
